@@ -991,7 +991,7 @@ class Element(UnicodeMixin):
             prefix, leaf = splitPrefix(leaf)
             if prefix is not None:
                 ns = node.resolvePrefix(prefix)
-            result = child.getChildren(leaf)
+            result = child.getChildren(leaf, ns)
         return result
 
     def __len__(self):
